@@ -227,6 +227,12 @@ func (w *Whisper) FetchFromArchive(arhiveID int, from, until, now Timestamp) (*T
 	untilInterval := r.interval(until)
 	step := r.secondsPerPoint
 
+	// Zero-length time range: always include the next point,
+	// also when the archive has never been written.
+	if fromInterval == untilInterval {
+		untilInterval = untilInterval.Add(step)
+	}
+
 	if baseInterval == 0 {
 		values := make([]Value, (untilInterval-fromInterval)/Timestamp(step))
 		for i := range values {
